@@ -28,7 +28,7 @@ PROPS["C18"] = {
     "required_theorems": ["gen_table_eq_published", "effective_values_sorted", "polygon_iff_published",
                           "polygon_perm_invariant", "polygon_unrelated_tags", "relation_polygon_iff"],
     "technique": "Lean 4 theorems over the rule table regenerated from polygon.go (equal to a pinned published table; binary search on sorted lists = membership); hand model of Way.Polygon tied by exhaustive differential enumeration",
-    "level_text": "Machine-checked proof that, for every node-ref list and every tag list, the model of Way.Polygon (binary search over the start-up-sorted value lists of the table extracted from polygon.go) equals the declarative published polygon-features rule over a pinned copy of the published table, with one reading made explicit: a listed key whose value is the EMPTY string is treated as absent, as the code does (Tags.Find) - the literal rule counts it as a value other than 'no'; that difference is the open known finding polygon-empty-value-read-as-absent, checked by the harness reference, which follows the literal rule; that the answer depends only on the values of area and the listed keys (so tag order with distinct keys and unrelated tags are irrelevant); and Relation.Polygon iff type is multipolygon/boundary. The table and the init-sort fact are regenerated from the source each run; the control flow of Way.Polygon is hand-modelled and tied by running model and code on an exhaustive enumeration (every listed key x every listed or boundary value x area class x shape) plus random multi-key sets.",
+    "level_text": "Machine-checked proof that, for every node-ref list and every tag list, the model of Way.Polygon (binary search over the start-up-sorted value lists of the table extracted from polygon.go) equals the declarative published polygon-features rule over a pinned copy of the published table (a listed key counts when it is PRESENT with a value other than 'no' - an empty value included, which the code used to read as absent: fixed finding polygon-empty-value-read-as-absent); that the answer depends only on the values of area and the listed keys (so tag order with distinct keys and unrelated tags are irrelevant); and Relation.Polygon iff type is multipolygon/boundary. The table and the init-sort fact are regenerated from the source each run; the control flow of Way.Polygon is hand-modelled and tied by running model and code on an exhaustive enumeration (every listed key x every listed or boundary value x area class x shape) plus random multi-key sets.",
     "level_note": "Trusted: Lean kernel; the pinned published table (written from the wiki list, compared entry by entry with the tree in round 0); sort.Strings (modelled as the unique sorted permutation) and sort.Search (modelled as the actual binary search); Go string comparison = lexicographic code point order (values are ASCII).",
     "design_ref": "DESIGN.md §5 C18",
     "trusted_base": [GO_LIBS + "sort.Strings, sort.SearchStrings (modelled as the actual binary search loop), Tags.Find modelled by hand",
